@@ -7,20 +7,31 @@ for every parser P of the grammar and every configuration c that P returned from
     P.save(c, path, format=f, skip_none=False, multifile=m); snap(P.parse_path(path)) == snap(c)
 where snap is the typed structural snapshot of gen_d (value for value, type for type; meta keys and the config-file
 action's own entry are left out).  f ranges over yaml/json/json_indented for yaml-mode parsers and over
-json/json_indented/parser_mode for json-mode parsers (a json reader is not asked to read yaml).
+json/json_indented/parser_mode for json-mode parsers (a json reader is not asked to read yaml).  The print_config flag
+skip_null is only asserted on configurations in which every null sits where the default is null too (otherwise dropping
+nulls is lossy by definition and the statement only covers "nulls kept").
 
-Canonical violation keys: c01:<format family>:<what changed>:<the leaf that changed>  - the same leaf failing the same way
-through another route (print_config, save, skip_default, another parser shape or enclosing type) is the same key; a route
-that fails where the plain dump of the same configuration does not gets a key naming the route.
+Canonical violation keys  c01:<format family>:[<route>:]<what changed>:<the leaf that changed>
+The same leaf failing the same way through another route (skip_default, comments, print_config, save, another parser shape
+or enclosing type) is the same key; a route that fails where the plain dump of the same configuration does not gets a
+key naming the route.  A dump/save/print call that raises is keyed by route, exception, parser shape and a signature of
+the message (not by the value).
 """
+import calendar
+import dataclasses
 import os
 import re
 import sys
 import tempfile
+import zlib
+from typing import Callable, Dict, List, Literal, Optional, Tuple, Type, Union
 
 from bounded.common import Harness, outcome, quiet
 from bounded.gen_d import (
+    PICK,
     SHAPES,
+    TRICKY,
+    Built,
     Recorder,
     build,
     first_diff,
@@ -32,12 +43,13 @@ from bounded.gen_d import (
     none_paths,
     render_arg,
     run_units,
+    select,
     short,
     snap,
     strings_in,
 )
 
-EXCLUDE = {"SecretStr"}  # masked on purpose when dumped (C20's clause), so not a round-trip type
+from jsonargparse import ActionConfigFile, ActionParser, ArgumentParser, lazy_instance
 
 # spellings a YAML 1.1/1.2 reader may resolve to a float/int/bool/null - used only to NAME the suspect leaf in the key
 # of a failure whose re-parse raised (there is no result to diff), never to decide pass/fail
@@ -45,13 +57,20 @@ AMBIG = re.compile(
     r"^(?:[-+]?(?:\.[0-9_]+|[0-9][0-9_]*(?:\.[0-9_]*)?)(?:[eE][-+]?[0-9]+)?|[-+]?\.(?:inf|Inf|INF)|\.(?:nan|NaN|NAN)|[-+]?[0-9][0-9_]*(?::[0-5]?[0-9])+(?:\.[0-9_]*)?"
     r"|0x[0-9a-fA-F_]+|0o?[0-7_]+|0b[01_]+|~|null|Null|NULL|true|True|TRUE|false|False|FALSE|yes|Yes|YES|no|No|NO|on|On|ON|off|Off|OFF|y|Y|n|N|)$"
 )
+UNSAFE = re.compile("[\x00-\x08\x0b\x0c\x0e-\x1f\x7f\x85\u2028\u2029\ufeff]")
 
 
-def family(fmt):
-    return "json" if fmt.startswith("json") or fmt == "parser_mode:json" else "yaml"
+def emitted_plain(s):
+    """Does the stock PyYAML dumper write this string without quotes? (only used to name the suspect leaf)"""
+    import yaml
+
+    try:
+        return yaml.safe_dump(s, allow_unicode=True).split("\n")[0] == s
+    except Exception:  # noqa
+        return False
 
 
-def describe(s0, back, fam):
+def describe(s0, back, fam, hint=""):
     """None if the re-parse `back` (an outcome tuple) equals the snapshot s0, else (kind:leaf, explanation)."""
     if back[0] == "ok":
         d = first_diff(s0, snap(back[1], drop=("cfg",)))
@@ -59,86 +78,54 @@ def describe(s0, back, fam):
             return None
         path, kind, a, b = d
         return f"{kind}:{leaf_label(a if a is not None else b)}", f"at {path or '.'}: {a!r} came back as {b!r}"
+    # the re-parse raised: there is no result to diff, so name the most suspicious leaf of the configuration
     why = "raises:" + back[1] if back[0] == "exc" else f"exit:{back[1]}"
     leaves = strings_in(s0)
+    texts = [(k, s) for k, s in leaves if k in ("str", "enum", "path")]
+    sus = []
     if fam == "json":
         sus = [(k, s) for k, s in leaves if k == "float" and s in ("nan", "inf", "-inf")]
-    else:
-        sus = [(k, s) for k, s in leaves if k in ("str", "enum", "path") and AMBIG.match(s)]
-        sus.sort(key=lambda ks: not re.search(r"[0-9_]", ks[1]))  # number-like first
+    if not sus:
+        sus = [(k, s) for k, s in texts if UNSAFE.search(s)]
+    if not sus:
+        sus = [(k, s) for k, s in texts if AMBIG.match(s) and emitted_plain(s)]
+    if not sus:
+        sus = [(k, s) for k, s in texts if AMBIG.match(s)]
+        sus.sort(key=lambda ks: (not re.search(r"[0-9_]", ks[1]), ks[1] == ""))  # number-like first, the empty string last
     if sus:
         return f"{sus[0][0]}>{why}:{short(sus[0][1])}", f"re-parse failed: {back[1:]}"
-    return f"{why}:{short([s for _, s in leaves][:3])}", f"re-parse failed: {back[1:]}"
+    return f"{why}:{hint}", f"re-parse failed: {back[1:]}"
+
+
+def msgsig(msg):
+    """Signature of an exception message with the quoted / numeric parts (values, addresses) removed."""
+    norm = re.sub(r"'[^']*'|\"[^\"]*\"|\{[^}]*\}|[0-9]+", "", str(msg))[:200]
+    return format(zlib.crc32(norm.encode("utf-8", "backslashreplace")) & 0xFFFFFF, "06x")
 
 
 class Ctx:
-    def __init__(self, rec, B, ts, default_label, mode):
-        self.rec, self.B, self.ts, self.default_label, self.mode = rec, B, ts, default_label, mode
+    def __init__(self, rec, B, tname, default_label, mode):
+        self.rec, self.B, self.tname, self.default_label, self.mode = rec, B, tname, default_label, mode
         self.n = 0
 
     def case(self, inp, extra=None):
-        c = {"parser": f"shape={self.B.shape} type={self.ts.name} default={self.default_label} parser_mode={self.mode}", "input": inp}
+        c = {"parser": f"shape={self.B.shape} type={self.tname} default={self.default_label} parser_mode={self.mode}", "input": inp}
         if extra:
             c.update(extra)
         return c
 
 
-def msgsig(msg):
-    """Signature of an exception message with the quoted / numeric parts (values, addresses) removed."""
-    import zlib
-
-    norm = re.sub(r"'[^']*'|\"[^\"]*\"|[0-9]+", "", str(msg))[:200]
-    return format(zlib.crc32(norm.encode("utf-8", "backslashreplace")) & 0xFFFFFF, "06x")
-
-
 def failkey(cx, fam, route, res):
-    """Key of a failing dump/save/print call: names the route, the exception and the parser shape - not the value, because
-    such a failure is usually independent of the value; the message signature keeps different failures apart."""
     what = res[1] if res[0] == "exc" else f"exit{res[1]}"
-    return f"c01:{fam}:{route + ':' if route else ''}{what}:{cx.B.shape}/{cx.default_label}:{msgsig(res[2] if len(res) > 2 else '')}"
+    return f"c01:{fam}:{route + ':' if route else ''}{what}:{msgsig(res[2] if len(res) > 2 else '')}"
 
 
 def formats(mode):
     return ["yaml", "json", "json_indented"] if mode == "yaml" else ["json", "json_indented", "parser_mode"]
 
 
-def check_dumps(cx: Ctx, cfg, s0, inp, thorough, comments=False):
-    """dump -> parse_string for every format, plus skip_default and yaml_comments. Returns {format family: failure kind}."""
-    p, rec = cx.B.parser, cx.rec
-    base = {}
-    for fmt in formats(cx.mode):
-        fam = "json" if fmt != "yaml" else "yaml"
-        text = outcome(p.dump, cfg, format=fmt, skip_none=False)
-        if text[0] != "ok":
-            rec.check(False, failkey(cx, fam, "dump", text), f"dump of an accepted configuration failed: {text[1:]}", cx.case(inp, {"format": fmt}))
-            base[fam] = "dump-failed"
-            continue
-        back = outcome(p.parse_string, text[1])
-        bad = describe(s0, back, fam)
-        base.setdefault(fam, bad[0] if bad else None)
-        rec.check(bad is None, f"c01:{fam}:{bad[0]}" if bad else "", bad[1] if bad else "", cx.case(inp, {"format": fmt, "dump": text[1][:300]}))
-    variants = [("skip_default", dict(skip_default=True))]
-    if comments and cx.mode == "yaml":
-        variants += [("comments", dict(yaml_comments=True)), ("comments+skip_default", dict(yaml_comments=True, skip_default=True))]
-    fmts = formats(cx.mode) if thorough else formats(cx.mode)[:1]
-    for vname, kw in variants:
-        for fmt in fmts:
-            if "yaml_comments" in kw and fmt != "yaml":
-                continue
-            fam = "json" if fmt != "yaml" else "yaml"
-            text = outcome(p.dump, cfg, format=fmt, skip_none=False, **kw)
-            if text[0] != "ok":
-                same = base.get(fam) == "dump-failed"
-                rec.check(False, failkey(cx, fam, "dump" if same else "dump:" + vname.replace("comments+", ""), text),
-                          f"dump({vname}) of an accepted configuration failed: {text[1:]}", cx.case(inp, {"format": fmt, "variant": vname}))
-                continue
-            back = outcome(p.parse_string, text[1])
-            bad = describe(s0, back, fam)
-            key = ""
-            if bad:
-                key = f"c01:{fam}:{bad[0]}" if bad[0] == base.get(fam) else f"c01:{fam}:{vname}:{bad[0]}"
-            rec.check(bad is None, key, bad[1] if bad else "", cx.case(inp, {"format": fmt, "variant": vname, "dump": text[1][:300]}))
-    return base
+def fam_of(fmt):
+    return "yaml" if fmt == "yaml" else "json"
 
 
 def s0_leaf(s0, cx):
@@ -151,10 +138,78 @@ def s0_leaf(s0, cx):
     return cur
 
 
+def check_dumps(cx: Ctx, cfg, s0, inp, plain=True, skip_default=True, comments=False, all_formats=False, fewer=False):
+    """dump -> parse_string for every format, plus the skip_default and yaml_comments variants."""
+    p, rec = cx.B.parser, cx.rec
+    seen = {}  # (variant, fam) -> failure kind
+
+    def one(vname, fmt, kw, count=True):
+        fam = fam_of(fmt)
+        text = outcome(p.dump, cfg, format=fmt, skip_none=False, **kw)
+        if text[0] != "ok":
+            kind = f"dump-failed:{text[1]}:{msgsig(text[2])}"
+            prior = [v for v in ("", "skip_default", "comments") if v != vname and seen.get((v, fam)) == kind]
+            seen.setdefault((vname, fam), kind)
+            if count:
+                route = prior[0] if prior else vname
+                rec.check(False, failkey(cx, fam, "dump" + (":" + route if route else ""), text),
+                          f"dump({vname or 'plain'}) of an accepted configuration failed: {text[1:]}", cx.case(inp, {"format": fmt, "variant": vname}))
+            return
+        back = outcome(p.parse_string, text[1])
+        bad = describe(s0, back, fam, leaf_label(s0_leaf(s0, cx)))
+        kind = bad[0] if bad else None
+        seen.setdefault((vname, fam), kind)
+        if not count:
+            return
+        key = ""
+        if bad:
+            prior = [v for v in ("", "skip_default", "comments") if v != vname and seen.get((v, fam)) == kind]
+            route = prior[0] if prior else vname
+            key = f"c01:{fam}:{route + ':' if route else ''}{kind}"
+        rec.check(bad is None, key, bad[1] if bad else "", cx.case(inp, {"format": fmt, "variant": vname, "dump": text[1][:300]}))
+
+    fmts = formats(cx.mode)
+    for fmt in fmts[:2] if fewer else fmts:
+        one("", fmt, {}, count=plain or fmt == fmts[0])
+    if skip_default:
+        for fmt in fmts if all_formats else fmts[:1]:
+            one("skip_default", fmt, dict(skip_default=True))
+    if comments and cx.mode == "yaml":
+        one("comments", "yaml", dict(yaml_comments=True))
+        if skip_default:
+            one("comments+skip_default", "yaml", dict(yaml_comments=True, skip_default=True))
+
+
+def quick_base(cx, cfg, s0):
+    """How the plain dump of this configuration fails (per format family), without recording an evaluation."""
+    p = cx.B.parser
+    base = {}
+    for fmt in ("yaml", "json") if cx.mode == "yaml" else ("json",):
+        text = outcome(p.dump, cfg, format=fmt, skip_none=False)
+        if text[0] != "ok":
+            base[fmt] = f"dump-failed:{text[1]}:{msgsig(text[2])}"
+            continue
+        bad = describe(s0, outcome(p.parse_string, text[1]), fmt, leaf_label(s0_leaf(s0, cx)))
+        base[fmt] = bad[0] if bad else None
+    return base
+
+
+class LazyBase:
+    """quick_base, computed only when a failure has to be compared with the plain dump."""
+
+    def __init__(self, cx, cfg, s0):
+        self.args, self.val = (cx, cfg, s0), None
+
+    def get(self, fam):
+        if self.val is None:
+            self.val = quick_base(*self.args)
+        return self.val.get(fam)
+
+
 PC_FLAGS = ["", "skip_default", "comments", "skip_null", "comments,skip_default"]
 
 
-def check_print_config(cx: Ctx, args, base_of, thorough, sub=False):
+def check_print_config(cx: Ctx, args, sub=False, flags_list=PC_FLAGS):
     """stdout of parse_args(args + --print_config[=flags]) -> file -> parse_args(--cfg file) == parse_args(args)."""
     p, rec, B = cx.B.parser, cx.rec, cx.B
     ref = outcome(p.parse_args, list(args))
@@ -163,9 +218,11 @@ def check_print_config(cx: Ctx, args, base_of, thorough, sub=False):
         rec.count("rejected")
         return False
     s0 = snap(ref[1], drop=("cfg",))
-    base = base_of(ref[1], s0)
+    base = LazyBase(cx, ref[1], s0)
     dflt = outcome(p.get_defaults)
-    for flags in PC_FLAGS:
+    fam = "yaml" if cx.mode == "yaml" else "json"
+    seen = {}
+    for flags in flags_list:
         if cx.mode != "yaml" and "comments" in flags:
             continue
         if "skip_null" in flags:
@@ -173,8 +230,8 @@ def check_print_config(cx: Ctx, args, base_of, thorough, sub=False):
             if dflt[0] != "ok" or has_none_in_container(s0) or not none_paths(s0) <= none_paths(snap(dflt[1], drop=("cfg",))):
                 continue
         opt = "--print_config" + ("=" + flags if flags else "")
-        if B.shape.startswith("subcmd"):
-            argv = (list(args) + [opt]) if sub else ([opt] + list(args))
+        if (B.shape.startswith("subcmd") or B.pc_first) and not sub:
+            argv = [opt] + list(args)
         else:
             argv = list(args) + [opt]
         code, text, msg = None, "", ""
@@ -189,11 +246,20 @@ def check_print_config(cx: Ctx, args, base_of, thorough, sub=False):
         except BaseException as ex:  # noqa
             code, msg = type(ex).__name__, str(ex)
         vars(p).pop("print_config", None)
-        fam = cx.mode
-        route = "print_config" + ("/sub" if sub else "") + (":" + flags if flags else "")
+        route = "print_config" + ("/sub" if sub else "")
+        variant = flags.replace("comments,", "comments+")
         if code != 0:
             res = ("exc", code, msg) if isinstance(code, str) else ("exit", code, "")
-            rec.check(False, failkey(cx, fam, route, res), f"--print_config did not print and exit 0 (got {code} {msg[:200]})", cx.case(argv))
+            kind = f"dump-failed:{res[1]}:{msgsig(msg)}"
+            prior = [f for f in ("", "skip_default", "comments") if f != variant and seen.get(f) == kind]
+            seen.setdefault(variant, kind)
+            if kind == base.get(fam):
+                key = failkey(cx, fam, "dump", res)
+            else:
+                fl = prior[0] if prior else variant
+                # the flags map onto dump variants: name the variant so that dump(...) and --print_config agree on the key
+                key = failkey(cx, fam, "dump:" + fl if fl else route, res)
+            rec.check(False, key, f"--print_config did not print and exit 0 (got {code} {msg[:200]})", cx.case(argv))
             continue
         cx.n += 1
         fname = f"pc{cx.n}.{'yaml' if cx.mode == 'yaml' else 'json'}"
@@ -202,45 +268,53 @@ def check_print_config(cx: Ctx, args, base_of, thorough, sub=False):
         back = outcome(p.parse_args, B.sub_cfg_argv(fname) if sub else [f"--cfg={fname}"])
         vars(p).pop("print_config", None)
         os.unlink(fname)
-        if sub:
-            # the subcommand's parser printed only its own section: compare that section
-            bad = describe(s0, back, fam)
-        else:
-            bad = describe(s0, back, fam)
+        bad = describe(s0, back, fam, leaf_label(s0_leaf(s0, cx)))
         key = ""
         if bad:
-            key = f"c01:{fam}:{bad[0]}" if bad[0] == base.get(fam) else f"c01:{fam}:{route}:{bad[0]}"
+            kind = bad[0]
+            prior = [f for f in ("", "skip_default", "comments") if f != variant and seen.get(f) == kind]
+            seen.setdefault(variant, kind)
+            if kind == base.get(fam):
+                key = f"c01:{fam}:{kind}"
+            else:
+                fl = prior[0] if prior else variant
+                key = f"c01:{fam}:{fl + ':' if fl else route + ':'}{kind}"
         rec.check(bad is None, key, bad[1] if bad else "", cx.case(argv, {"printed": text[:300]}))
     return True
 
 
-def check_save(cx: Ctx, cfg, s0, inp, base, thorough):
+def check_save(cx: Ctx, cfg, s0, inp, all_combos=False, subdir=None):
     p, rec = cx.B.parser, cx.rec
+    base = LazyBase(cx, cfg, s0)
     combos = [("yaml", True), ("json", False)] if cx.mode == "yaml" else [("json", True), ("parser_mode", False)]
-    if thorough:
+    if all_combos:
         combos = [(f, m) for f in formats(cx.mode) for m in (True, False)]
     for fmt, multi in combos:
-        fam = "json" if fmt != "yaml" else "yaml"
+        fam = fam_of(fmt)
         cx.n += 1
         fname = f"sv{cx.n}.{'yaml' if fmt == 'yaml' else 'json'}"
+        if subdir:
+            os.makedirs(f"{subdir}{cx.n}", exist_ok=True)
+            fname = os.path.join(f"{subdir}{cx.n}", fname)
         res = outcome(p.save, cfg, fname, format=fmt, skip_none=False, multifile=multi)
         route = f"save:{'multi' if multi else 'single'}"
         if res[0] != "ok":
-            rec.check(False, failkey(cx, fam, route, res), f"save of an accepted configuration failed: {res[1:]}", cx.case(inp, {"format": fmt}))
+            kind = f"dump-failed:{res[1]}:{msgsig(res[2])}"
+            rec.check(False, failkey(cx, fam, "dump" if kind == base.get(fam) else route, res), f"save of an accepted configuration failed: {res[1:]}", cx.case(inp, {"format": fmt, "multifile": multi}))
         else:
             back = outcome(p.parse_path, fname)
-            bad = describe(s0, back, fam)
+            bad = describe(s0, back, fam, leaf_label(s0_leaf(s0, cx)))
             key = ""
             if bad:
                 key = f"c01:{fam}:{bad[0]}" if bad[0] == base.get(fam) else f"c01:{fam}:{route}:{bad[0]}"
             rec.check(bad is None, key, bad[1] if bad else "", cx.case(inp, {"format": fmt, "multifile": multi}))
-        if os.path.exists(fname):
+        if not subdir and os.path.exists(fname):
             os.unlink(fname)
 
 
 # ------------------------------------------------------------------------------------------------ the grid
 def inputs_for(ts, B, full):
-    vals = ts.vals if full else (ts.core + [v for v in ts.vals[:0]])
+    vals = ts.vals if full else ts.core
     out = [("obj", v) for v in vals]
     if B.argv is not None:
         for v in vals:
@@ -263,51 +337,58 @@ def feed(B, inp):
     return res
 
 
+COMMENT_TYPES = {"str", "int", "float", "bool", "Literal", "Color", "NumEnum", "Path_fr", "NumLike", "timedelta", "Optional[str]", "Dict[str,str]", "List[str]", "Union[int,str]", "Union[str,int]",
+                 "Union[bool,str]", "Union[str,bool]", "Union[float,str]", "Tuple[str,int]", "Set[str]", "Dict[int,str]"}
+
+
 def grid_unit(unit):
-    section, shape, mode, lo, hi, thorough, maxdepth = unit
+    section, shape, mode, subset, lo, hi, thorough, maxdepth = unit
     rec = Recorder()
     old = os.getcwd()
     with tempfile.TemporaryDirectory() as td:
         os.chdir(td)
         try:
             make_files()
-            types = [t for t in make_types(thorough, maxdepth) if t.name.split("[")[0] not in EXCLUDE and "SecretStr" not in t.name][lo:hi]
+            types = select([t for t in make_types(thorough, maxdepth) if "SecretStr" not in t.name], subset)[lo:hi]
             for ts in types:
                 for dlabel in ("none", "canon"):
                     default = None if dlabel == "none" else ts.canon
-                    if dlabel == "canon" and default is None:
+                    if dlabel == "canon" and (default is None or shape == "positional"):
                         continue
-                    if shape == "positional" and dlabel == "canon":
+                    if dlabel == "canon" and not thorough and (section == "save" or ts.depth >= 2 or ts.depth == 1 and ts.name not in PICK):
                         continue
                     try:
                         B = build(shape, ts, default, mode)
                     except Exception as ex:  # noqa
                         rec.count("parser-not-built")
+                        rec.count(f"parser-not-built:{shape}:{ts.name}:{type(ex).__name__}"[:100])
                         continue
-                    cx = Ctx(rec, B, ts, dlabel, mode)
-                    full = shape == "flat" or ts.depth == 0
+                    cx = Ctx(rec, B, ts.name, dlabel, mode)
+                    full = shape == "flat" and (section == "dump" or ts.name == "str") or thorough and ts.depth == 0
                     seen = set()
-                    for inp in inputs_for(ts, B, full):
-                        res = feed(B, inp)
-                        if res[0] != "ok":
-                            rec.count("rejected")
-                            continue
-                        rec.count("accepted")
-                        cfg = res[1]
-                        s0 = snap(cfg, drop=("cfg",))
-                        if s0 in seen:
-                            continue
-                        seen.add(s0)
-                        label = [inp[0], inp[1]]
-                        rec.nontrivial(f"{section}:{shape}:{mode}:{ts.name}:{dlabel}:{short(s0_leaf(s0, cx), limit=60)}")
-                        if section == "dump":
-                            check_dumps(cx, cfg, s0, label, thorough, comments=(shape in ("flat", "dataclass", "subcmd1") and ts.depth <= 1))
-                        elif section == "save":
-                            base = quick_base(cx, cfg, s0)
-                            check_save(cx, cfg, s0, label, base, thorough)
-                        if len(rec.samples) < 1 and ts.depth >= 1:
-                            rec.sample({"shape": shape, "type": ts.name, "input": repr(inp[1])[:80]})
-                    if section == "print_config" and B.argv is not None:
+                    if section in ("dump", "save"):
+                        for inp in inputs_for(ts, B, full):
+                            res = feed(B, inp)
+                            if res[0] != "ok":
+                                rec.count("rejected")
+                                continue
+                            rec.count("accepted")
+                            cfg = res[1]
+                            s0 = snap(cfg, drop=("cfg",))
+                            if s0 in seen:
+                                continue
+                            seen.add(s0)
+                            label = [inp[0], inp[1]]
+                            rec.nontrivial(f"{section}:{shape}:{mode}:{ts.name}:{dlabel}:{short(s0_leaf(s0, cx), limit=60)}")
+                            if section == "dump":
+                                # quick tier: all formats with the None default, the yaml pair (plain, skip_default) with the non-None default
+                                check_dumps(cx, cfg, s0, label, plain=(dlabel == "none" or thorough), skip_default=(dlabel == "canon" or thorough or ts.depth == 0),
+                                            comments=(ts.name in COMMENT_TYPES and (shape in ("flat", "subcmd1") or thorough)), all_formats=thorough, fewer=(ts.depth >= 2 and not thorough))
+                            else:
+                                check_save(cx, cfg, s0, label, all_combos=thorough)
+                            if len(rec.samples) < 1 and ts.depth >= 1:
+                                rec.sample({"section": section, "shape": shape, "type": ts.name, "input": repr(inp[1])[:80]})
+                    elif B.argv is not None:
                         seen_args = set()
                         for ch, v in inputs_for(ts, B, full):
                             if ch != "argv":
@@ -319,8 +400,7 @@ def grid_unit(unit):
                                 continue
                             seen_args.add(tuple(args))
                             for sub in ((False, True) if B.sub_cfg_argv else (False,)):
-                                ok = check_print_config(cx, args, lambda cfg, s0: quick_base(cx, cfg, s0), thorough, sub=sub)
-                                if ok:
+                                if check_print_config(cx, args, sub=sub, flags_list=PC_FLAGS if shape == "flat" or thorough else PC_FLAGS[:3]):
                                     rec.count("accepted")
                                     rec.nontrivial(f"{section}:{shape}:{mode}:{ts.name}:{dlabel}:{sub}:{short(v, limit=60)}")
         finally:
@@ -328,28 +408,292 @@ def grid_unit(unit):
     return rec
 
 
-def quick_base(cx, cfg, s0):
-    """How the plain dump of this configuration fails (per format family), without recording an evaluation."""
-    p = cx.B.parser
-    base = {}
-    for fmt in ("yaml", "json") if cx.mode == "yaml" else ("json",):
-        text = outcome(p.dump, cfg, format=fmt, skip_none=False)
-        if text[0] != "ok":
-            base[fmt] = "dump-failed"
-            continue
-        bad = describe(s0, outcome(p.parse_string, text[1]), fmt)
-        base[fmt] = bad[0] if bad else None
-    return base
+# ------------------------------------------------------------------------------------------------ focused cases
+@dataclasses.dataclass
+class Inner:
+    s: str = "x"
+    n: Optional[int] = None
+
+
+@dataclasses.dataclass
+class Outer:
+    i: Inner = dataclasses.field(default_factory=Inner)
+    l: List[Inner] = dataclasses.field(default_factory=list)  # noqa: E741
+    o: Optional[Inner] = None
+    m: Dict[str, Inner] = dataclasses.field(default_factory=dict)
+    t: Tuple[str, Optional[float]] = ("1e1x", None)
+
+
+class Base:
+    def __init__(self, p: int = 1, q: str = "q"):
+        pass
+
+
+class Sub(Base):
+    def __init__(self, r: float = 0.5, **kwargs):
+        super().__init__(**kwargs)
+
+
+class KW(Base):
+    def __init__(self, **kwargs):
+        pass
+
+
+class Holder:
+    def __init__(self, b: Base = lazy_instance(Sub, r=2.0), n: int = 0, o: Optional[Base] = None):
+        pass
+
+
+class Deep(Base):
+    def __init__(self, inner: Optional[Base] = None, items: Optional[List[Base]] = None, d: Optional[Inner] = None, **kwargs):
+        super().__init__(**kwargs)
+
+
+ME = __name__
+
+
+def small_dicts():
+    out = [{}]
+    for k in ("a", "b"):
+        for v in (1, 2):
+            out.append({k: v})
+    for va in (1, 2):
+        for vb in (1, 2):
+            out.append({"a": va, "b": vb})
+    return out
+
+
+def focus_cases(thorough):
+    """(label, build(parser), inputs) - inputs are ('obj', dict) or ('argv', [args])."""
+    cases = []
+
+    # F1: skip_default on Dict-typed values: every default x every value over dicts with keys a,b and values 1,2
+    for tname, hint, lift in (("Dict[str,int]", Dict[str, int], lambda d: d), ("Optional[Dict[str,int]]", Optional[Dict[str, int]], lambda d: d),
+                              ("Dict[str,Dict[str,int]]", Dict[str, Dict[str, int]], lambda d: {"x": d, "y": {"a": 1}}), ("Dict[str,List[int]]", Dict[str, List[int]], lambda d: {k: [v] for k, v in d.items()})):
+        for d0 in small_dicts() if thorough or tname == "Dict[str,int]" else [{"a": 1}, {"a": 1, "b": 2}]:
+            def b(p, hint=hint, d0=d0, lift=lift):
+                p.add_argument("--cfg", action=ActionConfigFile)
+                p.add_argument("--a", type=hint, default=lift(d0))
+            cases.append((f"dictdefault:{tname}", b, [("obj", {"a": lift(v)}) for v in small_dicts()]))
+
+    # F2: skip_default decides "same as the default" with ==, which identifies 1, 1.0 and True
+    for tname, hint, dflt, vals in (
+        ("Union[int,float]", Union[int, float], 1, [1.0, 1, 2.0]), ("Union[float,int]", Union[float, int], 1.0, [1, 1.0]), ("Union[bool,int]", Union[bool, int], True, [1, True, 0]),
+        ("Union[int,bool]", Union[int, bool], 1, [True, 1]), ("Union[int,bool]", Union[int, bool], 0, [False, 0]), ("Union[bool,float]", Union[bool, float], False, [0.0, False]),
+        ("List[Union[int,float]]", List[Union[int, float]], [1, 2], [[1.0, 2], [1, 2], [1, 2.0]]), ("Dict[str,Union[int,bool]]", Dict[str, Union[int, bool]], {"k": 1}, [{"k": True}, {"k": 1}]),
+        ("Tuple[Union[int,float],...]", Tuple[Union[int, float], ...], (1,), [[1.0], [1]]), ("Union[int,str]", Union[int, str], 1, ["1", 1]), ("Union[str,int]", Union[str, int], "1", [1, "1"]),
+        ("Optional[float]", Optional[float], 0.0, [-0.0, 0.0, None]), ("Literal[1,True,0,False]", Literal[1, True, 0, False], 1, [True, 1, False, 0]),
+    ):
+        def b(p, hint=hint, dflt=dflt):
+            p.add_argument("--cfg", action=ActionConfigFile)
+            p.add_argument("--a", type=hint, default=dflt)
+        cases.append((f"eqdefault:{tname}={dflt!r}", b, [("obj", {"a": v}) for v in vals]))
+
+    # F3: subcommands - a subcommand without options, optional subcommands, identical option names, all-default choice
+    def subs(p, required=True, empty_b=True, same=False):
+        p.add_argument("--cfg", action=ActionConfigFile)
+        p.add_argument("--top", type=Optional[str], default=None)
+        sc = p.add_subcommands(required=required)
+        a = ArgumentParser(exit_on_error=False)
+        a.add_argument("--x", type=int, default=1)
+        b = ArgumentParser(exit_on_error=False)
+        if not empty_b:
+            b.add_argument("--x" if same else "--y", type=int, default=1 if same else 2)
+        c = ArgumentParser(exit_on_error=False)
+        c.add_argument("pos", type=str)
+        sc.add_subcommand("a", a)
+        sc.add_subcommand("b", b)
+        sc.add_subcommand("c", c)
+    sub_inputs = [("argv", ["a"]), ("argv", ["b"]), ("argv", ["a", "--x=2"]), ("argv", ["--top=1e3", "b"]), ("argv", ["c", "1e3"]), ("argv", ["c", "null"]), ("argv", []), ("obj", {"b": {}}), ("obj", {"subcommand": "b"}),
+                  ("argv", ["b", "--x=1"]), ("argv", ["b", "--y=2"]), ("argv", ["b", "--y=3"])]
+    cases.append(("subcommands:b-has-no-options", lambda p: subs(p), sub_inputs))
+    cases.append(("subcommands:optional", lambda p: subs(p, required=False), sub_inputs))
+    cases.append(("subcommands:with-options", lambda p: subs(p, empty_b=False), sub_inputs))
+    cases.append(("subcommands:same-option-names", lambda p: subs(p, empty_b=False, same=True), sub_inputs))
+
+    # F4: nested dataclasses
+    dc_inputs = [
+        ("obj", {"o": {"i": {"s": "null"}, "l": [{"s": "a"}, {"n": 1}], "o": {"n": None}, "m": {"k": {"s": "~"}}}}),
+        ("obj", {"o": {"i": {"s": "1e3"}, "o": None}}), ("obj", {"o": {"l": [{"s": "1e3", "n": 1}], "m": {"1e3": {"s": "x"}}}}), ("obj", {"o": {"t": ["", 1]}}), ("obj", {"o": {"t": ["null", None]}}),
+        ("argv", ["--o.i.s=", "--o.o.s=on"]), ("argv", ["--o.l+={\"s\": \"a: b\"}", "--o.l+={\"n\": 2}"]), ("argv", ["--o.o={\"n\": 3}", "--o.o=null"]), ("argv", ["--o.m.k.s=true", "--o.m.j.n=4"]), ("argv", []),
+        ("obj", {"o": {"i": {"s": "x", "n": None}, "l": [], "o": {"s": "x", "n": None}, "m": {}}}),
+    ]
+
+    def dc(p, default=dataclasses.MISSING, opt=False):
+        p.add_argument("--cfg", action=ActionConfigFile)
+        kw = {} if default is dataclasses.MISSING else {"default": default}
+        p.add_argument("--o", type=Optional[Outer] if opt else Outer, **kw)
+    cases.append(("dataclass:Outer", lambda p: dc(p), dc_inputs))
+    cases.append(("dataclass:Outer=instance", lambda p: dc(p, default=Outer(i=Inner(s="z"), o=Inner(n=2), l=[Inner(s="li")])), dc_inputs))
+    cases.append(("dataclass:Optional[Outer]=None", lambda p: dc(p, default=None, opt=True), dc_inputs))
+
+    def dc_group(p):
+        p.add_argument("--cfg", action=ActionConfigFile)
+        p.add_class_arguments(Outer, "o")
+    cases.append(("dataclass:class-arguments", dc_group, dc_inputs))
+
+    def dc_list(p):
+        p.add_argument("--cfg", action=ActionConfigFile)
+        p.add_argument("--l", type=List[Outer], default=[])
+        p.add_argument("--d", type=Dict[str, Optional[Inner]], default={})
+    cases.append(("dataclass:List[Outer]", dc_list, [("obj", {"l": [{"i": {"s": "1e3"}}, {"o": {"n": 1}}], "d": {"k": None, "j": {"s": "~"}}}), ("argv", ["--l+={\"t\": [\"x\", 1.5]}"]), ("obj", {"l": [{}]})]))
+
+    # F5: subclass specs
+    spec_inputs = [
+        ("argv", []), ("argv", ["--b=Base"]), ("argv", ["--b=Sub"]), ("argv", ["--b=Sub", "--b.r=2.0"]), ("argv", ["--b=Sub", "--b.r=1", "--b.q=1e3"]), ("argv", ["--b=Base", "--b.p=2"]),
+        ("argv", [f"--b={ME}.KW", "--b.dict_kwargs.zz=1e3", "--b.dict_kwargs.n=null"]), ("obj", {"b": {"class_path": f"{ME}.KW", "dict_kwargs": {"zz": "1e3", "p": 1}}}), ("obj", {"b": {"class_path": f"{ME}.Sub"}}),
+        ("obj", {"b": {"class_path": f"{ME}.Sub", "init_args": {"r": 0.5, "p": 1, "q": "q"}}}), ("obj", {"b": {"class_path": f"{ME}.Base", "init_args": {"q": "null"}}}), ("obj", {"b": None}),
+        ("argv", ["--b=Deep", "--b.inner=Sub", "--b.inner.r=3", "--b.items+=Base", "--b.items+=Sub", "--b.d.s=on"]),
+        ("obj", {"b": {"class_path": f"{ME}.Deep", "init_args": {"inner": {"class_path": f"{ME}.Deep", "init_args": {"inner": {"class_path": f"{ME}.Base"}}}}}}),
+    ]
+    for label, kw in (("no-default", {}), ("default=lazy_instance(Sub,r=2.0)", {"default": lazy_instance(Sub, r=2.0)}), ("default=spec(Sub,r=2.0)", {"default": {"class_path": f"{ME}.Sub", "init_args": {"r": 2.0}}}),
+                      ("default=spec(Base)", {"default": {"class_path": f"{ME}.Base"}})):
+        def b(p, kw=kw):
+            p.add_argument("--cfg", action=ActionConfigFile)
+            p.add_argument("--b", type=Base, **kw)
+        cases.append((f"subclass:Base:{label}", b, spec_inputs))
+
+    def b_opt(p):
+        p.add_argument("--cfg", action=ActionConfigFile)
+        p.add_argument("--b", type=Optional[Base], default=None)
+    cases.append(("subclass:Optional[Base]=None", b_opt, spec_inputs))
+
+    def b_holder(p):
+        p.add_argument("--cfg", action=ActionConfigFile)
+        p.add_class_arguments(Holder, "h")
+    cases.append(("subclass:class-arguments(Holder)", b_holder, [("argv", []), ("argv", ["--h.b=Base"]), ("argv", ["--h.b=Base", "--h.b.p=2", "--h.o=Sub"]), ("argv", ["--h.b.r=0.5"]), ("argv", ["--h.b.r=2.0", "--h.n=1"]),
+                                                                 ("argv", [f"--h.b={ME}.KW", "--h.b.dict_kwargs.zz=1"]), ("argv", ["--h.o=Base", "--h.o.q=~"])]))
+
+    def b_cont(p):
+        p.add_argument("--cfg", action=ActionConfigFile)
+        p.add_argument("--l", type=List[Base], default=[])
+        p.add_argument("--d", type=Dict[str, Base], default={})
+        p.add_argument("--u", type=Union[Base, str], default=None)
+        p.add_argument("--v", type=Union[str, Base], default=None)
+        p.add_argument("--w", type=Union[Base, int], default=3)
+    cases.append(("subclass:containers+unions", b_cont, [("argv", ["--l+=Sub", "--l+=Base"]), ("obj", {"d": {"k": {"class_path": f"{ME}.Sub"}, "1e3": {"class_path": f"{ME}.Base"}}}), ("argv", ["--u=Sub"]), ("argv", ["--u=hello"]),
+                                                         ("argv", ["--u=1e3"]), ("argv", ["--v=Sub"]), ("argv", [f"--v={ME}.Sub"]), ("argv", ["--w=Sub", "--w.r=1"]), ("argv", ["--w=4"]),
+                                                         ("obj", {"u": {"class_path": f"{ME}.Sub"}, "v": {"class_path": f"{ME}.Sub"}})]))
+
+    def b_call(p):
+        p.add_argument("--cfg", action=ActionConfigFile)
+        p.add_argument("--c", type=Callable[[int], bool], default=calendar.isleap)
+        p.add_argument("--o", type=Optional[Callable[[int], bool]], default=None)
+        p.add_argument("--t", type=Type[Base], default=Base)
+        p.add_argument("--f", type=Optional[Callable[[int], Base]], default=None)
+    cases.append(("callable+type", b_call, [("argv", []), ("argv", ["--c=calendar.isleap", "--o=calendar.isleap"]), ("argv", ["--c=builtins.bool"]), ("argv", [f"--t={ME}.Sub"]), ("obj", {"t": Sub, "c": calendar.isleap}),
+                                            ("argv", ["--o=null"]), ("argv", [f"--f={ME}.Sub"]), ("argv", [f"--f={ME}.Sub", "--f.r=3"])]))
+
+    # F7: dump_header, help texts and values that look like YAML structure next to an inner parser and a group
+    def b_header(p):
+        p.dump_header = ["app 1.0", "a: 1", "- x", ""]
+        p.add_argument("--cfg", action=ActionConfigFile)
+        p.add_argument("--a", type=Optional[str], default="v", help="line1\nline2 # x: y")
+        g = p.add_argument_group("Group:\nsecond line", description="desc")
+        g.add_argument("--g.b", type=Optional[str], default="1", help="%(default)s")
+        ip = ArgumentParser(exit_on_error=False, description="inner: [")
+        ip.add_argument("--x", type=Optional[str], default="1e1x")
+        ip.add_argument("--y", type=Inner, default=Inner())
+        p.add_argument("--in", action=ActionParser(parser=ip), help="inner\nhelp")
+    cases.append(("dump_header+help-texts", b_header, [("argv", []), ("argv", ["--a=a # b", "--g.b=#"]), ("argv", ["--a=line1\nline2", "--in.x=\n# c"]), ("argv", ["--in.y.s=x\ny: 2", "--g.b=g:\n  b: 3"]), ("argv", ["--a=null", "--in.x=null"])]))
+    return cases
 
 
 def focus_units(thorough):
-    return []
+    n = len(focus_cases(thorough))
+    return [("focus", i, thorough) for i in range(n)] + [("meta", 0, thorough)]
 
 
 def focus_unit(unit):
-    return Recorder()
+    kind, idx, thorough = unit
+    rec = Recorder()
+    old = os.getcwd()
+    with tempfile.TemporaryDirectory() as td:
+        os.chdir(td)
+        try:
+            if kind == "meta":
+                meta_cases(rec, thorough)
+                return rec
+            label, b, inputs = focus_cases(thorough)[idx]
+            p = ArgumentParser(exit_on_error=False, prog="app")
+            b(p)
+            B = Built(p, label, lambda v: v, lambda a: a, "", pc_first=label.startswith("subcommands"))
+            cx = Ctx(rec, B, "-", "-", "yaml")
+            seen = set()
+            for inp in inputs:
+                res = feed(B, inp)
+                if res[0] != "ok":
+                    rec.count("rejected")
+                    continue
+                rec.count("accepted")
+                cfg = res[1]
+                s0 = snap(cfg, drop=("cfg",))
+                if s0 in seen:
+                    continue
+                seen.add(s0)
+                rec.nontrivial(f"focus:{label}:{short(inp[1], limit=90)}")
+                check_dumps(cx, cfg, s0, list(inp), comments=not label.startswith(("dictdefault", "eqdefault")), all_formats=thorough or not label.startswith("dictdefault"))
+                if not label.startswith(("dictdefault", "eqdefault")):
+                    check_save(cx, cfg, s0, list(inp), all_combos=thorough)
+                    if inp[0] == "argv":
+                        check_print_config(cx, inp[1])
+            rec.sample({"focus": label, "inputs": len(inputs)})
+        finally:
+            os.chdir(old)
+    return rec
 
 
+def meta_cases(rec, thorough):
+    """save(multifile=True) of configurations that carry __path__ metadata (nested config files), into another directory."""
+    os.makedirs("src", exist_ok=True)
+    texts = {"plain": "s: y\nn: 2\n", "tricky": "s: '1e3'\nn: null\n", "nullish": "s: 'null'\n", "multi": "s: \"a\\nb: 1\"\nn: 3\n"}
+    for name, text in texts.items():
+        with open(f"src/{name}.yaml", "w") as f:
+            f.write(text)
+        with open(f"src/main_{name}.yaml", "w") as f:
+            f.write(f"top: '1:30'\nd: {name}.yaml\nin: {name}_in.yaml\n")
+        with open(f"src/{name}_in.yaml", "w") as f:
+            f.write(text)
+    with open("src/sub.yaml", "w") as f:
+        f.write(f"class_path: {ME}.Sub\ninit_args:\n  r: 3.5\n  q: '~'\n")
+
+    p = ArgumentParser(exit_on_error=False, prog="app")
+    p.add_argument("--cfg", action=ActionConfigFile)
+    p.add_argument("--top", type=Optional[str], default=None)
+    p.add_argument("--d", type=Inner, default=Inner())
+    ip = ArgumentParser(exit_on_error=False)
+    ip.add_argument("--s", type=str, default="1e1x")
+    ip.add_argument("--n", type=Optional[int], default=None)
+    p.add_argument("--in", action=ActionParser(parser=ip))
+    p.add_argument("--b", type=Optional[Base], default=None)
+    B = Built(p, "meta:nested-config-files", lambda v: v, lambda a: a, "")
+    cx = Ctx(rec, B, "-", "-", "yaml")
+    for name in texts:
+        for args in ([f"--d=src/{name}.yaml"], [f"--in=src/{name}.yaml"], [f"--cfg=src/main_{name}.yaml"], [f"--d=src/{name}.yaml", "--d.n=7", "--b=src/sub.yaml"], [f"--cfg=src/main_{name}.yaml", "--in.s=over"]):
+            res = outcome(p.parse_args, args)
+            if res[0] != "ok":
+                rec.count("rejected")
+                continue
+            rec.count("accepted")
+            cfg = res[1]
+            s0 = snap(cfg, drop=("cfg",))
+            rec.nontrivial(f"meta:{name}:{' '.join(args)}")
+            check_save(cx, cfg, s0, ["argv", args], all_combos=True, subdir="out")
+            check_dumps(cx, cfg, s0, ["argv", args], comments=True)
+
+
+def any_unit(unit):
+    import time
+
+    t0 = time.time()
+    rec = focus_unit(unit) if unit[0] in ("focus", "meta") else grid_unit(unit)
+    if os.environ.get("VERIF_TIMING"):
+        rec.count("time:" + ":".join(map(str, unit[:3])), round(time.time() - t0, 2))
+        rec.count("maxunit:" + ":".join(map(str, unit[:5])) , round(time.time() - t0, 2))
+    return rec
+
+
+# ------------------------------------------------------------------------------------------------ main
 def main():
     h = Harness("b01_roundtrip", rule="parsers = shape x type of G(d) x default in {None, a normalised value} x parser_mode; configurations = every distinct result the parser "
                 "returns for the per-type value sets (python objects through parse_object, strings through argv); one evaluation = one (parser, configuration, "
@@ -357,40 +701,43 @@ def main():
                 "(section, shape, mode, type, default, resulting leaf value)")
     thorough = h.thorough
     D = 3 if thorough else 2
-    ntypes = len([t for t in make_types(thorough, D) if "SecretStr" not in t.name])
-    n1 = len([t for t in make_types(thorough, 1) if "SecretStr" not in t.name])
-    n2 = len([t for t in make_types(thorough, 2) if "SecretStr" not in t.name])
+    alltypes = [t for t in make_types(thorough, D) if "SecretStr" not in t.name]
     units = []
-    step = 12
 
-    def add(section, shape, mode, n, st=step):
+    def add(section, shape, mode, subset, st=10):
+        n = len(select(alltypes, subset))
         for lo in range(0, n, st):
-            units.append((section, shape, mode, lo, min(n, lo + st), thorough, D))
+            units.append((section, shape, mode, subset, lo, min(n, lo + st), thorough, D))
 
-    add("dump", "flat", "yaml", ntypes)
+    add("dump", "flat", "yaml", "all", st=5 if not thorough else 12)
     for shape in SHAPES[1:]:
-        add("dump", shape, "yaml", n2 if thorough else n1)
-    add("dump", "flat", "json", n1)
+        add("dump", shape, "yaml", "d1" if thorough else ("few" if shape.startswith("subclass") else "pick"), st=4 if shape.startswith("subclass") else 8)
+    add("dump", "flat", "json", "d1" if thorough else "pick", st=5)
     if thorough:
-        add("dump", "dataclass", "json", n1)
-        add("dump", "flat", "jsonnet", 20)
+        add("dump", "dataclass", "json", "pick")
+        add("dump", "subcmd1", "json", "pick")
+        add("dump", "flat", "jsonnet", "pick")
     for shape in SHAPES:
-        if shape == "positional":
-            continue
-        add("print_config", shape, "yaml", n1 if thorough or shape == "flat" else 20)
-    add("print_config", "flat", "json", n1 if thorough else 20)
+        if shape != "positional":
+            add("print_config", shape, "yaml", ("d1" if thorough else "pick") if shape == "flat" else ("pick" if thorough else "tiny"), st=1)
+    add("print_config", "flat", "json", "pick" if thorough else "few", st=3)
     for shape in SHAPES:
-        add("save", shape, "yaml", n1 if thorough or shape == "flat" else 20)
-    add("save", "flat", "json", 20)
-    totals = run_units(h, grid_unit, units)
-    totals2 = run_units(h, focus_unit, focus_units(thorough))
-    for k, v in totals2.items():
-        totals[k] = totals.get(k, 0) + v
-    h.note(f"inputs accepted {totals.get('accepted', 0)}, rejected {totals.get('rejected', 0)}, parsers not built {totals.get('parser-not-built', 0)}")
+        add("save", shape, "yaml", ("d1" if thorough else "pick") if shape == "flat" else ("pick" if thorough else "few"), st=5)
+    add("save", "flat", "json", "pick" if thorough else "few")
+    totals = run_units(h, any_unit, units + focus_units(thorough))
+    h.note(f"inputs accepted {totals.get('accepted', 0)}, rejected {totals.get('rejected', 0)}, parsers not built {totals.get('parser-not-built', 0)}: "
+           + ", ".join(sorted(k.split(':', 1)[1] for k in totals if k.startswith('parser-not-built:'))[:12]))
+    if os.environ.get("VERIF_TIMING"):
+        h.note("timing: " + ", ".join(f"{k}={v:.1f}" for k, v in sorted(totals.items(), key=lambda kv: -kv[1]) if k.startswith(("time:", "maxunit:")))[:3000])
     h.check(totals.get("accepted", 0) > 0 and totals.get("rejected", 0) > 0, "c01:vacuity", "both accepted and rejected inputs must occur", totals)
-    sys.exit(h.finish(exhaustive=True, bound=f"type grammar depth <= {D} ({ntypes} types; all of them in the flat shape, depth <= {2 if thorough else 1} in the other 8 shapes), "
-                      f"value sets of gen_d (incl. {len(__import__('bounded.gen_d').gen_d.TRICKY)} look-alike strings), formats yaml/json/json_indented, parser modes yaml/json"
-                      + ("/jsonnet" if thorough else "") + ", print_config flags {'',skip_default,comments,skip_null*,comments+skip_default}, save single/multi-file; plus the focused cases of b01_focus"))
+    if len(h.viol_keys) > len(h.violations):
+        stored = {v["key"] for v in h.violations}
+        h.note(f"{len(h.viol_keys)} distinct violation keys, only {len(h.violations)} stored; the others: " + " | ".join(sorted(h.viol_keys - stored)))
+    sys.exit(h.finish(exhaustive=True, bound=f"type grammar depth <= {D} ({len(alltypes)} types; all of them in the flat shape, {'depth <= 1' if thorough else 'leaves + 37 representative depth-1 types'} in the other "
+                      f"{len(SHAPES) - 1} shapes), value sets of gen_d (incl. {len(TRICKY)} look-alike strings), formats yaml/json/json_indented, parser modes yaml/json"
+                      + ("/jsonnet" if thorough else "") + ", print_config flags {'',skip_default,comments,skip_null*,comments+skip_default} at top level and inside subcommands, save single/multi-file; "
+                      "focused cases: skip_default over all (default, value) pairs of dicts with keys a,b / values 1,2; ==-confusable defaults; 4 subcommand layouts; nested dataclasses; subclass specs "
+                      "(5 default styles, containers, unions, callables); nested config files saved multi-file"))
 
 
 if __name__ == "__main__":
